@@ -27,7 +27,7 @@ var topDecl = regexp.MustCompile(`^(object|enum|oneof)\s+([A-Za-z_][A-Za-z0-9_]*
 // variantOf returns the variant and a description, or nil if no edit applies.
 func variantOf(p *Program, seed uint64) (*Program, string) {
 	rng := simrt.NewRng(simrt.Derive(seed, 0x7a))
-	edits := []func(*Program, *simrt.Rng) (*Program, string){moveTypeToNewFile, renumberDepEnum, renumberProtoEnum}
+	edits := []func(*Program, *simrt.Rng) (*Program, string){moveTypeToNewFile, renumberDepEnum, renumberProtoEnum, sameLengthEdit, sameLengthEdit}
 	for _, i := range rng.Perm(len(edits)) {
 		if q, d := edits[i](p, rng); q != nil {
 			q.Name = p.Name + "+variant"
@@ -96,6 +96,50 @@ func moveTypeToNewFile(p *Program, rng *simrt.Rng) (*Program, string) {
 			q.Files[newName] = blocks[0] + "\n" + blocks[d.idx]
 			return q, fmt.Sprintf("%s moved from %s to new file %s", d.name, name, newName)
 		}
+	}
+	return nil, ""
+}
+
+var scalarField = regexp.MustCompile(`(?m)^(\s+field\s+[a-z][A-Za-z0-9]*\s+)(string|bool)(\s*)$`)
+
+// sameLengthEdit changes one j5s file without changing its name or its LENGTH: a `string` field
+// becomes `bool  ` (or the other way round). A cache keyed by file name, by name and size, or by
+// name and modification time hands out the stale parse.
+func sameLengthEdit(p *Program, rng *simrt.Rng) (*Program, string) {
+	names := p.FileNames()
+	for _, fi := range rng.Perm(len(names)) {
+		name := names[fi]
+		if !strings.HasSuffix(name, ".j5s") {
+			continue
+		}
+		src := p.Files[name]
+		locs := scalarField.FindAllStringSubmatchIndex(src, -1)
+		if len(locs) == 0 {
+			continue
+		}
+		m := locs[rng.Intn(len(locs))]
+		old := src[m[4]:m[5]]
+		repl := "bool  "
+		if old == "bool" {
+			// needs two spare characters after it: only when the line has trailing blanks
+			if m[7]-m[6] < 2 {
+				continue
+			}
+			repl = "string"
+			q := p.Clone()
+			q.Files[name] = src[:m[4]] + repl + src[m[6]+2:]
+			return q, fmt.Sprintf("a bool field of %s became a string field (same file length)", name)
+		}
+		if m[7]-m[6] > 0 {
+			continue // keep it simple: only lines without trailing blanks
+		}
+		q := p.Clone()
+		q.Files[name] = src[:m[4]] + "bool" + src[m[5]:m[6]] + "  " + src[m[7]:]
+		_ = repl
+		if len(q.Files[name]) != len(src) {
+			continue
+		}
+		return q, fmt.Sprintf("a string field of %s became a bool field, two blanks added at the end of its line (same file length)", name)
 	}
 	return nil, ""
 }
